@@ -6,12 +6,12 @@ import cssutils.css as css
 
 # ---- spelling vectors -------------------------------------------------------------------------------------------------
 VECTORS = [
-    {"id": "canonical", "ws": " ", "cm": False, "case": "lower", "quote": '"', "url": "bare", "esc": "none", "imp": "!important", "lastsemi": False, "eof": False, "num": "plain"},
-    {"id": "minimal", "ws": "", "cm": False, "case": "lower", "quote": "'", "url": "dq", "esc": "none", "imp": "!important", "lastsemi": True, "eof": False, "num": "nolead"},
-    {"id": "upper-nl", "ws": "\n\t", "cm": False, "case": "upper", "quote": '"', "url": "sq", "esc": "none", "imp": "! IMPORTANT", "lastsemi": True, "eof": False, "num": "plain"},
-    {"id": "comments", "ws": " ", "cm": True, "case": "mixed", "quote": "'", "url": "pad", "esc": "simple", "imp": "!/**/important", "lastsemi": False, "eof": False, "num": "trail0"},
-    {"id": "crlf-hex", "ws": "\r\n\f ", "cm": False, "case": "lower", "quote": '"', "url": "bare", "esc": "hex", "imp": "!important", "lastsemi": False, "eof": True, "num": "plain"},
-    {"id": "tab-upper-cm", "ws": "\t", "cm": True, "case": "upper", "quote": '"', "url": "dq", "esc": "hex6", "imp": "!IMPORTANT", "lastsemi": True, "eof": True, "num": "plain"},
+    {"id": "canonical", "calcop": "both", "ws": " ", "cm": False, "case": "lower", "quote": '"', "url": "bare", "esc": "none", "imp": "!important", "lastsemi": False, "eof": False, "num": "plain"},
+    {"id": "minimal", "calcop": "none", "ws": "", "cm": False, "case": "lower", "quote": "'", "url": "dq", "esc": "none", "imp": "!important", "lastsemi": True, "eof": False, "num": "nolead"},
+    {"id": "upper-nl", "calcop": "before", "ws": "\n\t", "cm": False, "case": "upper", "quote": '"', "url": "sq", "esc": "none", "imp": "! IMPORTANT", "lastsemi": True, "eof": False, "num": "plain"},
+    {"id": "comments", "calcop": "after", "ws": " ", "cm": True, "case": "mixed", "quote": "'", "url": "pad", "esc": "simple", "imp": "!/**/important", "lastsemi": False, "eof": False, "num": "trail0"},
+    {"id": "crlf-hex", "calcop": "before", "ws": "\r\n\f ", "cm": False, "case": "lower", "quote": '"', "url": "padcrff", "esc": "hex", "imp": "!important", "lastsemi": False, "eof": True, "num": "plain"},
+    {"id": "tab-upper-cm", "calcop": "after", "ws": "\t", "cm": True, "case": "upper", "quote": '"', "url": "dq", "esc": "hex6", "imp": "!IMPORTANT", "lastsemi": True, "eof": True, "num": "plain"},
 ]
 
 
@@ -71,19 +71,28 @@ def comp_text(c, v):
         return "#" + "".join(c * 2 for c in x[1:])
     if t == "COLOR_VALUE" and x.startswith("#") and v["esc"] in ("hex", "hex6"):
         return "#" + escape_name(x[1:], v, hexonly=True)           # a hex escape inside the hash token: same colour
+    if t == "COLOR_VALUE" and "(" in x:
+        name, args = x.split("(", 1)                       # rgb( / hsla(: the name is case-insensitive, the commas may have white space
+        return case(name, v) + "(" + W(v) + args[:-1].replace(", ", W(v) + "," + W(v)) + W(v) + ")"
     if t in ("IDENT", "COLOR_VALUE") and re.match(r"^[a-z]+$", x):
         return escape_name(x, v, hexonly=True)
     if t == "STRING":
         return v["quote"] + x[1:-1] + v["quote"]
     if t == "URI":
         inner = x[4:-1]
-        form = {"bare": inner, "dq": '"%s"' % inner, "sq": "'%s'" % inner, "pad": " %s " % inner}[v["url"]]
+        form = {"bare": inner, "dq": '"%s"' % inner, "sq": "'%s'" % inner, "pad": " %s " % inner, "padcrff": '\r\n"%s"\f' % inner}[v["url"]]
         return case("url", v) + "(" + form + ")"
     if t == "FUNCTION":
         name, args = x.split("(", 1)
+        if args.startswith("calc("):
+            return case(name, v) + "(" + W(v) + comp_text({"t": "CALC", "x": args[:-1]}, v) + W(v) + ")"
         return case(name, v) + "(" + args.replace(", ", W(v) + "," + W(v))
     if t == "CALC":
-        return case("calc", v) + "(" + W(v) + "1px + 2px" + W(v) + ")"
+        # + and - need white space on both sides; * and / may have it before, after, on both sides or not at all
+        inner = x[5:-1]
+        around = {"both": (" ", " "), "none": ("", ""), "before": (" ", ""), "after": ("", " ")}[v.get("calcop", "both")]
+        inner = re.sub(r" ([*/]) ", lambda m: around[0] + m.group(1) + around[1], inner)
+        return case("calc", v) + "(" + W(v) + inner + W(v) + ")"
     return x
 
 
@@ -92,7 +101,8 @@ def value_text(val, v):
     prev = None
     for c in val:
         if c["t"] == "op":
-            out += W(v) + c["x"] + W(v)
+            # "a /*x*/ , b": with comment parsing off the comment must go and the white space on both its sides is one
+            out += (W(v, True) + CM(v) + W(v, True) if v["cm"] else W(v)) + c["x"] + W(v)
         else:
             if prev is not None and prev["t"] != "op":
                 out += W(v, True) + (CM(v) + W(v, True) if v["cm"] else "")
@@ -188,6 +198,10 @@ def comps(pv):
             continue
         if it.type == "operator":
             out.append({"t": "op", "x": val})
+        elif isinstance(val, css.CSSVariable):
+            # read from the object's attributes, not from its serialisation (which preferences and the serializer decide)
+            fb = getattr(val, "fallback", None)
+            out.append({"t": "VARIABLE", "x": "var(%s%s)" % (val.name, ", " + fb.cssText if fb is not None else "")})
         elif hasattr(val, "cssText"):
             t, x = getattr(val, "type", it.type), val.cssText
             if t == "DIMENSION" and (x in ("0", "-0", "+0") or (re.match(r"^[-+]?0*\.?0+[a-z]+$", x.lower()) and not re.match(r".*(deg|rad|grad|s|hz)$", x.lower()))):
